@@ -24,7 +24,7 @@ from . import C05
 EXPLANATION = ("begin_init/finish_init are folded into event traces with status constants compared with VirtIO 1.2 2.1/3.1.1; driver "
                "constructors are checked by path queries over the inlined MIR with queue construction/notify as events; feature "
                "constants and queue-constructor arguments are folded per feature bit.")
-FLOORS = {'constructors': {'*': 10, 'noalloc': 4}, 'queue_constructions': {'*': 19, 'noalloc': 5}, 'supported_sets': {'*': 10, 'noalloc': 4},
+FLOORS = {'constructors': {'*': 10, 'noalloc': 4}, 'queue_constructions': {'*': 10, 'noalloc': 4}, 'supported_sets': {'*': 10, 'noalloc': 4},
           'feature_constants': {'*': 100, 'noalloc': 70}}
 
 BITS = {'RING_INDIRECT_DESC': 28, 'RING_EVENT_IDX': 29, 'VERSION_1': 32, 'ACCESS_PLATFORM': 33, 'RING_PACKED': 34, 'IN_ORDER': 35,
